@@ -43,6 +43,8 @@ pub struct NodeState {
     /// known preimages: hash -> preimage (a part completes only with the true preimage)
     pub preimages: BTreeMap<[u8; 32], [u8; 32]>,
     pub next_group: u64,
+    /// getinfo replies carry the sync warnings
+    pub sync_warning: bool,
 }
 
 pub fn rpc_error(code: i32, msg: &str) -> Value {
@@ -198,6 +200,16 @@ impl NodeState {
     }
 
     pub fn getinfo(&self, id_hex: &str) -> Value {
+        let mut v = self.getinfo_plain(id_hex);
+        if self.sync_warning {
+            // lightningd adds these while it is catching up; the height is valid all the same
+            v["result"]["warning_bitcoind_sync"] = json!("Bitcoind is not up-to-date with network.");
+            v["result"]["warning_lightningd_sync"] = json!("Still loading latest blocks from bitcoind.");
+        }
+        v
+    }
+
+    fn getinfo_plain(&self, id_hex: &str) -> Value {
         json!({"result": {
             "id": id_hex,
             "alias": "SIMNODE",
